@@ -21,7 +21,7 @@
   (parse, serialize of an arbitrary tree, patch); the tie of this hand-written model to the C code is
   the correspondence run (request traces compared call by call) and the shape facts of st_alloc.py.
 -/
-import JsonC.Lemmas.AllocOps
+import JsonC.Lemmas.AllocTree
 
 namespace JsonC.Alloc
 open JsonC Generated
@@ -200,22 +200,27 @@ theorem alNew2_clean (g : Oracle) (h : Heap) (hwf : WF h) (n : Int) :
 heap unchanged.  (The realloc result goes through a temporary: `allocAlExpandChecksTemp`.) -/
 theorem alExpand_clean (g : Oracle) (h : Heap) (hwf : WF h) (a : AlA) (max : Nat) (hb : a.array ∈ h.live) :
     Post (alExpand a max) g h (fun r h' => WF h' ∧ h.next ≤ h'.next ∧
-      ((r.2 = 0 ∧ AlKeptOrMoved h a r.1 h' ∧ r.1.length = a.length ∧ max ≤ r.1.size) ∨
-       (r.2 = -1 ∧ r.1 = a ∧ h'.live = h.live ∧ (Failed g h h' ∨ h'.next = h.next)))) := by
+      ((r.2 = 0 ∧ AlKeptOrMoved h a r.1 h' ∧ r.1.length = a.length ∧ max ≤ r.1.size ∧
+          (r.1.size = a.size ∨ (a.size ≤ max ∧ (r.1.size = max ∨ r.1.size = a.size * 2)))) ∨
+       (r.2 = -1 ∧ r.1 = a ∧ h'.live = h.live ∧
+          (Failed g h h' ∨ (h'.next = h.next ∧ (max > SIZE_T_MAX / PTR ∨ a.size * 2 > SIZE_T_MAX / PTR)))))) := by
   obtain ⟨_, hexp, _⟩ := shape_facts
   unfold alExpand
   by_cases h0 : max < a.size
   · rw [if_pos h0]
     apply Post.pure
-    exact ⟨hwf, Nat.le_refl _, Or.inl ⟨rfl, ⟨rfl, Or.inl ⟨rfl, rfl, rfl, rfl⟩⟩, rfl, Nat.le_of_lt h0⟩⟩
+    exact ⟨hwf, Nat.le_refl _, Or.inl ⟨rfl, ⟨rfl, Or.inl ⟨rfl, rfl, rfl, rfl⟩⟩, rfl, Nat.le_of_lt h0, Or.inl rfl⟩⟩
   · rw [if_neg h0]
-    obtain ⟨n, hn, hmax, _⟩ := alNewSize_ok a.size max
+    obtain ⟨n, hn, hmax, hnc⟩ := alNewSize_ok a.size max
     apply Post.bind
     apply Post.liftO hn
     by_cases h1 : n > SIZE_T_MAX / PTR
     · rw [if_pos h1]
       apply Post.pure
-      exact ⟨hwf, Nat.le_refl _, Or.inr ⟨rfl, rfl, rfl, Or.inr rfl⟩⟩
+      refine ⟨hwf, Nat.le_refl _, Or.inr ⟨rfl, rfl, rfl, Or.inr ⟨rfl, ?_⟩⟩⟩
+      rcases hnc with hnc | hnc
+      · exact Or.inl (hnc ▸ h1)
+      · exact Or.inr (hnc ▸ h1)
     · rw [if_neg h1, if_neg (by rw [hexp]; decide)]
       apply Post.bind
       apply Post.liftO (bytes_ok n _ h1)
@@ -224,7 +229,7 @@ theorem alExpand_clean (g : Oracle) (h : Heap) (hwf : WF h) (a : AlA) (max : Nat
       · intro hg h1' hn1 hl1 he1 hwf1
         dsimp only
         apply Post.pure
-        exact ⟨hwf1, by omega, Or.inl ⟨rfl, ⟨rfl, Or.inr ⟨hl1, hn1, rfl⟩⟩, rfl, hmax⟩⟩
+        exact ⟨hwf1, by omega, Or.inl ⟨rfl, ⟨rfl, Or.inr ⟨hl1, hn1, rfl⟩⟩, rfl, hmax, Or.inr ⟨by omega, hnc⟩⟩⟩
       · intro hg h1' hn1 hl1 he1 hwf1
         dsimp only
         apply Post.pure
@@ -260,9 +265,12 @@ theorem alShrink_clean (g : Oracle) (h : Heap) (hwf : WF h) (a : AlA) (e : Nat) 
         apply Post.mono (alExpand_clean g h hwf a _ hb)
         rintro r h' ⟨hwf', hn', hcase⟩
         refine ⟨hwf', hn', ?_⟩
-        rcases hcase with ⟨h1', h2', h3', _⟩ | hf
+        rcases hcase with ⟨h1', h2', h3', _⟩ | ⟨h1', h2', h3', hf⟩
         · exact Or.inl ⟨h1', h2', h3'⟩
-        · exact Or.inr hf
+        · refine Or.inr ⟨h1', h2', h3', ?_⟩
+          rcases hf with hf | ⟨hf, _⟩
+          · exact Or.inl hf
+          · exact Or.inr hf
       · rw [if_neg h2, if_neg (by rw [hshr]; decide)]
         apply Post.bind
         apply Post.liftO (bytes_ok _ _ (by rw [hmin, hS, hP] at *; split <;> omega))
@@ -280,33 +288,40 @@ theorem alShrink_clean (g : Oracle) (h : Heap) (hwf : WF h) (a : AlA) (e : Nat) 
 /-- array_list_add: length + 1 inside the capacity, or -1 with the list and the heap unchanged -/
 theorem alAdd_clean (g : Oracle) (h : Heap) (hwf : WF h) (a : AlA) (hb : a.array ∈ h.live) :
     Post (alAdd a) g h (fun r h' => WF h' ∧ h.next ≤ h'.next ∧
-      ((r.2 = 0 ∧ AlKeptOrMoved h a r.1 h' ∧ r.1.length = a.length + 1 ∧ r.1.length ≤ r.1.size) ∨
-       (r.2 = -1 ∧ r.1 = a ∧ h'.live = h.live ∧ (Failed g h h' ∨ h'.next = h.next)))) := by
+      ((r.2 = 0 ∧ AlKeptOrMoved h a r.1 h' ∧ r.1.length = a.length + 1 ∧ r.1.length ≤ r.1.size ∧
+          (r.1.size = a.size ∨ (a.size ≤ a.length + 1 ∧ (r.1.size = a.length + 1 ∨ r.1.size = a.size * 2)))) ∨
+       (r.2 = -1 ∧ r.1 = a ∧ h'.live = h.live ∧
+          (Failed g h h' ∨ (h'.next = h.next ∧ (a.length + 1 > SIZE_T_MAX / PTR ∨ a.size * 2 > SIZE_T_MAX / PTR)))))) := by
   obtain ⟨_, _, hg1, hn1, _⟩ := al_consts
+  have hS := sizeMax_val
+  have hP := ptr_val
   unfold alAdd
   by_cases h0 : a.length > SIZE_T_MAX - alAddGuard
   · rw [if_pos h0]
     apply Post.pure
-    exact ⟨hwf, Nat.le_refl _, Or.inr ⟨rfl, rfl, rfl, Or.inr rfl⟩⟩
+    refine ⟨hwf, Nat.le_refl _, Or.inr ⟨rfl, rfl, rfl, Or.inr ⟨rfl, Or.inl ?_⟩⟩⟩
+    rw [hg1, hS] at h0; rw [hS, hP]; omega
   · rw [if_neg h0]
     apply Post.seq (alExpand_clean g h hwf a _ hb)
     rintro ⟨a1, rc⟩ h' ⟨hwf', hn', hcase⟩
-    rcases hcase with ⟨hrc, hk, hlen, hcap⟩ | ⟨hrc, ha, hl, hf⟩
-    · simp only at hrc hk hlen hcap
+    rcases hcase with ⟨hrc, hk, hlen, hcap, hsz⟩ | ⟨hrc, ha, hl, hf⟩
+    · simp only at hrc hk hlen hcap hsz
       subst hrc
       dsimp only
       rw [if_neg (by decide)]
       apply Post.pure
-      refine ⟨hwf', hn', Or.inl ⟨rfl, ⟨hk.1, ?_⟩, ?_, ?_⟩⟩
+      refine ⟨hwf', hn', Or.inl ⟨rfl, ⟨hk.1, ?_⟩, ?_, ?_, ?_⟩⟩
       · exact hk.2
       · dsimp only; rw [hlen]
       · dsimp only; rw [hlen]; rw [hn1] at hcap; exact hcap
+      · dsimp only; rw [hn1] at hsz; exact hsz
     · simp only at hrc ha hl
       subst hrc; subst ha
       dsimp only
       rw [if_pos (by decide)]
       apply Post.pure
-      exact ⟨hwf', hn', Or.inr ⟨rfl, rfl, hl, hf⟩⟩
+      refine ⟨hwf', hn', Or.inr ⟨rfl, rfl, hl, ?_⟩⟩
+      rw [hn1] at hf; exact hf
 
 /-! ## linkhash.c -/
 
@@ -400,7 +415,7 @@ theorem lhInsert_clean (g : Oracle) (h : Heap) (hwf : WF h) (t : LhA) (htab : t.
       ((r.2 = 0 ∧ r.1.self = t.self ∧ r.1.count = t.count + 1 ∧ r.1.count ≤ r.1.size ∧
           ((r.1.table = t.table ∧ r.1.size = t.size ∧ h'.live = h.live ∧ h'.next = h.next) ∨
            (r.1.size = t.size * 2 ∧ h'.live = h.live.filter (· != t.table) ++ [r.1.table] ∧
-              h'.next = h.next + 2 ∧ r.1.table.id = h.next + 2))) ∨
+              h'.next = h.next + 2 ∧ r.1.table.id = h.next + 2 ∧ t.size ≤ 2 * t.count + 1))) ∨
        (r.2 = -1 ∧ r.1 = t ∧ h'.live = h.live ∧ Failed g h h'))) := by
   obtain ⟨hpos, hcs, hsm⟩ := hok
   have hI := intMax_nat
@@ -423,7 +438,8 @@ theorem lhInsert_clean (g : Oracle) (h : Heap) (hwf : WF h) (t : LhA) (htab : t.
       dsimp only
       rw [if_neg (by decide)]
       apply Post.pure
-      refine ⟨hwf', hn', Or.inl ⟨rfl, hs, by dsimp only; rw [hc], by dsimp only; omega, Or.inr ⟨hsz, hl, hnx, hid⟩⟩⟩
+      refine ⟨hwf', hn', Or.inl ⟨rfl, hs, by dsimp only; rw [hc], by dsimp only; omega,
+        Or.inr ⟨hsz, hl, hnx, hid, size_le_of_loadTest t.count t.size (by omega) hlt⟩⟩⟩
     · simp only at hrc ht hl
       subst hrc; subst ht
       dsimp only
@@ -725,6 +741,171 @@ theorem setStringLen_clean (g : Oracle) (h : Heap) (hwf : WF h) (b : Blk) (old s
         · rw [if_neg h1]
           apply Post.pure
           exact ⟨hwf, Nat.le_refl _, Or.inl ⟨rfl, _, rfl, Or.inl ⟨rfl, rfl, rfl⟩⟩⟩
+
+
+/-! ## json_object.c: array add, member add -/
+
+/-- json_object_array_add: the value is appended (slot array kept or replaced), or -1 with the array
+and the heap unchanged (the caller still owns the value) -/
+theorem arrayAdd_clean (g : Oracle) (h : Heap) (hwf : WF h) (b : Blk) (al : AlA) (es : List Node) (val : Node)
+    (hb : al.array ∈ h.live) :
+    Post (arrayAdd (.arr b al es) val) g h (fun r h' => WF h' ∧ h.next ≤ h'.next ∧
+      ((r.2 = 0 ∧ ∃ al', r.1 = .arr b al' (es ++ [val]) ∧ AlKeptOrMoved h al al' h' ∧ al'.length = al.length + 1 ∧
+          (al'.size = al.size ∨ (al.size ≤ al.length + 1 ∧ (al'.size = al.length + 1 ∨ al'.size = al.size * 2)))) ∨
+       (r.2 = -1 ∧ r.1 = .arr b al es ∧ h'.live = h.live ∧
+          (Failed g h h' ∨ (h'.next = h.next ∧ (al.length + 1 > SIZE_T_MAX / PTR ∨ al.size * 2 > SIZE_T_MAX / PTR)))))) := by
+  unfold arrayAdd
+  apply Post.seq (alAdd_clean g h hwf al hb)
+  rintro ⟨al1, rc⟩ h' ⟨hwf', hn', hcase⟩
+  rcases hcase with ⟨hrc, hk, hlen, _, hsz⟩ | ⟨hrc, ha, hl, hf⟩
+  · simp only at hrc hk hlen hsz
+    subst hrc
+    dsimp only
+    rw [if_neg (by decide)]
+    apply Post.pure
+    exact ⟨hwf', hn', Or.inl ⟨rfl, al1, rfl, hk, hlen, hsz⟩⟩
+  · simp only at hrc ha hl
+    subst hrc; subst ha
+    dsimp only
+    rw [if_pos (by decide)]
+    apply Post.pure
+    exact ⟨hwf', hn', Or.inr ⟨rfl, rfl, hl, hf⟩⟩
+
+/-- what a successful insertion of a new member leaves -/
+def ObjAdded (h : Heap) (b : Blk) (lh : LhA) (ms : List (Bytes × Option Blk × Node)) (key : Bytes) (val : Node)
+    (constKey : Bool) (r : Node) (h' : Heap) : Prop :=
+  ∃ kb lh', r = .obj b lh' (ms ++ [(key, kb, val)]) ∧ lh'.self = lh.self ∧ lh'.count = lh.count + 1 ∧
+    lh'.count ≤ lh'.size ∧ (constKey = true ↔ kb = none) ∧ (∀ k, kb = some k → k.id = h.next + 1 ∧ k.size = key.length + 1) ∧
+    ((lh'.table = lh.table ∧ lh'.size = lh.size ∧ h'.live = h.live ++ kb.toList ∧ h'.next = h.next + kb.toList.length) ∨
+     (lh'.size = lh.size * 2 ∧ h'.live = h.live.filter (· != lh.table) ++ kb.toList ++ [lh'.table] ∧
+        h'.next = h.next + kb.toList.length + 2 ∧ lh'.table.id = h'.next ∧ lh.size ≤ 2 * lh.count + 1))
+
+theorem objectAddInsert_spec (g : Oracle) (h h1 : Heap) (hwf : WF h) (b : Blk) (lh : LhA)
+    (ms : List (Bytes × Option Blk × Node)) (key : Bytes) (val : Node) (constKey : Bool)
+    (htab : lh.table ∈ h.live) (hok : LhOK lh)
+    (kb : Option Blk) (hwf1 : WF h1) (hl1 : h1.live = h.live ++ kb.toList)
+    (hn1 : h1.next = h.next + kb.toList.length) (hck : constKey = true ↔ kb = none)
+    (hkid : ∀ k, kb = some k → k.id = h.next + 1 ∧ k.size = key.length + 1) :
+    Post (objectAddInsert b lh ms key kb val) g h1 (fun r h' => WF h' ∧ h.next ≤ h'.next ∧
+      ((r.2 = 0 ∧ ObjAdded h b lh ms key val constKey r.1 h') ∨
+       (r.2 = -1 ∧ r.1 = .obj b lh ms ∧ h'.live = h.live ∧ Failed g h1 h'))) := by
+  obtain ⟨_, _, _, _, _, hfree, _⟩ := shape_facts
+  have htab1 : lh.table ∈ h1.live := by rw [hl1]; simp [htab]
+  unfold objectAddInsert
+  apply Post.seq (lhInsert_clean g h1 hwf1 lh htab1 hok)
+  rintro ⟨lh1, rc⟩ h2 ⟨hwf2, hn2, hcase⟩
+  rcases hcase with ⟨hrc, hs, hc, hcs, hkm⟩ | ⟨hrc, ht, hl2, hf⟩
+  · simp only at hrc hs hc hcs hkm
+    subst hrc
+    dsimp only
+    rw [if_neg (by decide)]
+    apply Post.pure
+    refine ⟨hwf2, by omega, Or.inl ⟨rfl, kb, lh1, rfl, hs, hc, hcs, hck, hkid, ?_⟩⟩
+    rcases hkm with ⟨ht, hsz, hl2, hnx⟩ | ⟨hsz, hl2, hnx, hid, hgrow⟩
+    · exact Or.inl ⟨ht, hsz, by rw [hl2, hl1], by omega⟩
+    · refine Or.inr ⟨hsz, ?_, by omega, by omega, hgrow⟩
+      rw [hl2, hl1, List.filter_append]
+      congr 2
+      apply filter_ne_fresh
+      intro hm
+      cases kb with
+      | none => simp at hm
+      | some k =>
+        simp only [Option.toList_some, List.mem_singleton] at hm
+        have hk1 := (hkid k rfl).1
+        have hk2 := hwf.2 _ htab
+        rw [hm] at hk2
+        omega
+  · simp only at hrc ht hl2
+    subst hrc; subst ht
+    dsimp only
+    rw [if_pos (by decide), hfree]
+    simp only [↓reduceIte]
+    cases kb with
+    | none =>
+      dsimp only
+      apply Post.pure
+      refine ⟨hwf2, by omega, Or.inr ⟨rfl, rfl, ?_, hf⟩⟩
+      rw [hl2, hl1]; simp
+    | some k =>
+      dsimp only
+      apply Post.bind
+      apply Post.free hwf2 (by rw [hl2, hl1]; simp)
+      intro h3 hn3 hl3 he3 hwf3
+      apply Post.pure
+      refine ⟨hwf3, by omega, Or.inr ⟨rfl, rfl, ?_, hf.widen (Nat.le_refl _) (by omega)⟩⟩
+      rw [hl3, hl2, hl1]
+      simp only [Option.toList_some]
+      apply filter_append_self
+      intro hm
+      have hk1 := (hkid k rfl).1
+      have hk2 := hwf.2 _ hm
+      omega
+
+/-- json_object_object_add_ex.
+  * existing key: the old value is released and replaced, no allocation, rc 0;
+  * new key: the key is copied (unless CONSTANT_KEY) and the entry inserted, the entry array kept or
+    doubled, rc 0;
+  * -1 with the object and the heap unchanged — in particular the key copy is freed when the insert
+    fails (`allocObjAddFreesKeyOnFail`); the caller still owns the value. -/
+theorem objectAddEx_clean (g : Oracle) (h : Heap) (hwf : WF h) (b : Blk) (lh : LhA)
+    (ms : List (Bytes × Option Blk × Node)) (key : Bytes) (val : Node) (keyIsNew constKey : Bool)
+    (htab : lh.table ∈ h.live) (hok : LhOK lh)
+    (hold : ∀ i, keyIsNew = false → findKey key ms = some i → OwnedIn h (owned (memberVal ms i))) :
+    Post (objectAddEx (.obj b lh ms) key val keyIsNew constKey) g h (fun r h' => WF h' ∧ h.next ≤ h'.next ∧
+      ((r.2 = 0 ∧ ∃ i, keyIsNew = false ∧ findKey key ms = some i ∧ r.1 = .obj b lh (setMemberVal ms i val) ∧
+          h'.live = h.live.filter (keep (owned (memberVal ms i))) ∧ h'.next = h.next) ∨
+       (r.2 = 0 ∧ (keyIsNew = true ∨ findKey key ms = none) ∧ ObjAdded h b lh ms key val constKey r.1 h') ∨
+       (r.2 = -1 ∧ r.1 = .obj b lh ms ∧ h'.live = h.live ∧ Failed g h h'))) := by
+  obtain ⟨_, _, _, _, _, _, hchk, _⟩ := shape_facts
+  unfold objectAddEx
+  dsimp only
+  cases hfk : (if keyIsNew = true then none else findKey key ms) with
+  | some i =>
+    have hnew : keyIsNew = false := by
+      cases keyIsNew with
+      | true => simp at hfk
+      | false => rfl
+    have hfind : findKey key ms = some i := by rw [hnew] at hfk; simpa using hfk
+    dsimp only
+    apply Post.seq (putNode_spec _ g h hwf (hold i hnew hfind))
+    rintro _ h1 ⟨hwf1, hn1, he1, hl1⟩
+    apply Post.pure
+    exact ⟨hwf1, by omega, Or.inl ⟨rfl, i, hnew, hfind, rfl, hl1, hn1⟩⟩
+  | none =>
+    have hnone : keyIsNew = true ∨ findKey key ms = none := by
+      cases keyIsNew with
+      | true => exact Or.inl rfl
+      | false => right; simpa using hfk
+    dsimp only
+    rw [if_neg (by rw [hchk]; decide)]
+    cases constKey with
+    | true =>
+      rw [if_pos rfl]
+      apply Post.mono (objectAddInsert_spec g h h hwf b lh ms key val true htab hok none hwf (by simp) (by simp) (by simp) (by simp))
+      rintro r h' ⟨hw, hn, hc⟩
+      refine ⟨hw, hn, ?_⟩
+      rcases hc with ⟨h1', h2'⟩ | hc
+      · exact Or.inr (Or.inl ⟨h1', hnone, h2'⟩)
+      · exact Or.inr (Or.inr hc)
+    | false =>
+      rw [if_neg (by decide)]
+      unfold strdup
+      apply Post.bind
+      apply Post.alloc hwf
+      · intro hg h1 hn hl he hwf1
+        dsimp only
+        apply Post.mono (objectAddInsert_spec g h h1 hwf b lh ms key val false htab hok (some ⟨h.next + 1, key.length + 1⟩) hwf1
+          (by simpa using hl) (by simpa using hn) (by simp) (by simp))
+        rintro r h' ⟨hw, hn', hc⟩
+        refine ⟨hw, hn', ?_⟩
+        rcases hc with ⟨h1', h2'⟩ | ⟨h1', h2', h3', h4'⟩
+        · exact Or.inr (Or.inl ⟨h1', hnone, h2'⟩)
+        · exact Or.inr (Or.inr ⟨h1', h2', h3', h4'.widen (by omega) (Nat.le_refl _)⟩)
+      · intro hg h1 hn hl he hwf1
+        dsimp only
+        apply Post.pure
+        exact ⟨hwf1, by omega, Or.inr (Or.inr ⟨rfl, rfl, hl, ⟨h.next + 1, by omega, by omega, hg⟩⟩)⟩
 
 
 end JsonC.Alloc
